@@ -285,6 +285,7 @@ def c20(res: CheckResult) -> None:
         "LeftOut is applied to names, attributes and arguments the condition references; the result of a call or "
         "subscript is a computed value that C06 requires to be listed"]
     M.check_messages(res, res.tier, rng)
+    M.check_multiline_keys(res)
     # sortedness and determinism of the recomputed value lines is also part of the expression families
     _expr_run_c20(res)
 
@@ -304,3 +305,53 @@ def _expr_run_c20(res: CheckResult) -> None:
     st = E.check_cases(res, EXPR_CLAUSES, cases, viol, py, ic)
     res.traces += st["cases"]
     res.add_unit("value lines of recomputed sub-expressions are sorted by expression text", **st)
+
+
+@check("C19")
+def c19(res: CheckResult) -> None:
+    from icv import tablecheck as T
+    ic = C.load_icontract()
+    rng = random.Random(res.seed)
+    res.assumptions = COMMON_ASSUMPTIONS
+    T.check_misuse(res, ic)
+    def_unit(res, "decorator stacks: snapshots at every position (also before any postcondition), duplicate names",
+             list(DF.fam_stacks(res.tier, rng)), ic, rng=rng)
+
+
+@check("C14")
+def c14(res: CheckResult) -> None:
+    from icv import tablecheck as T
+    ic = C.load_icontract()
+    rng = random.Random(res.seed)
+    res.assumptions = DEF_ASSUMPTIONS + [
+        "metadata preservation is decided over an explicit attribute list (name, qualname, doc, module, annotations, "
+        "signature, abstractness, coroutine-ness, __wrapped__)"]
+    T.check_ctor(res, ic)
+    def_unit(res, "decorator stacks with foreign wrappers: one checker, no decorator lost, original reachable",
+             list(DF.fam_stacks(res.tier, rng)), ic, rng=rng)
+    def_unit(res, "overrides carrying foreign functools.wraps decorators in hierarchies",
+             list(DF.fam_foreign_hier(res.tier, rng)), ic, verdicts=True, rng=rng)
+    def_unit(res, "diamonds: method resolution of classes with invariants equals that of the bare classes",
+             list(DF.fam_shadow(res.tier, rng)), ic, rng=rng)
+    progs = [p for p in F.fam_pre(res.tier, rng)
+             if all(all(c["truth"]) for c in p["con"])]
+    call_unit(res, "satisfied contracts: identity of arguments at the body and of results / exceptions at the caller",
+              progs, ic, require_outcomes=["ret"])
+    call_unit(res, "bodies raising every exception kind through satisfied contracts",
+              [p for p in F.fam_post(res.tier, rng) if all(all(c["truth"]) for c in p["con"])], ic,
+              require_outcomes=["ret", "KI", "Exception"])
+
+
+@check("C15")
+def c15(res: CheckResult) -> None:
+    from icv import tablecheck as T
+    import os
+    res.assumptions = COMMON_ASSUMPTIONS + ["three interpreter modes (normal, -O, -OO) x ICONTRACT_SLOW in {unset, empty, "
+                                            "non-empty}: one interpreter per pair; other interpreter flags are out of scope"]
+    T.check_config(res, os.environ.get("ICV_REPO", "/repo"))
+    rng = random.Random(res.seed)
+    progs = list(F.fam_snap(res.tier, rng)) + list(F.fam_err(res.tier, rng))
+    more = list(F.fam_pre(res.tier, rng)) + list(F.fam_inv(res.tier, rng)) + list(F.fam_order(res.tier, rng))
+    rng.shuffle(more)
+    progs += more[:600 if res.tier == "quick" else 6000]
+    T.check_modes_behaviour(res, progs, os.environ.get("ICV_REPO", "/repo"))
